@@ -13,7 +13,9 @@ import sys
 import os as _real_os
 import posixpath
 
-from whoosim.kernel import SimKilled, HarnessError, _FD_COUNTER
+from whoosim.kernel import SimKilled, HarnessError
+
+FD_BASE = 1000000
 
 O_RDONLY = _real_os.O_RDONLY
 O_WRONLY = _real_os.O_WRONLY
@@ -75,7 +77,7 @@ class SimFile(object):
         self._os = simos
         self._proc = proc
         self._fd = fd
-        self._ofd = ofd
+        self._ofd0 = ofd
         self.mode = mode
         self.name = name
         self._pos = 0
@@ -85,6 +87,18 @@ class SimFile(object):
         proc.files.append(self)
 
     # -- helpers
+    @property
+    def _ofd(self):
+        """A file object only knows its descriptor *number*: if somebody closed that number
+        behind its back every system call fails with EBADF, and if the number has been handed
+        out again the call lands in the other file - exactly as on a real system."""
+        o = self._proc.fds.get(self._fd)
+        if o is None:
+            if not self._proc.alive:
+                return self._ofd0
+            raise OSError(errno.EBADF, "Bad file descriptor")
+        return o
+
     def _check(self):
         if self.closed:
             raise ValueError("I/O operation on closed file.")
@@ -429,8 +443,14 @@ class SimOS(object):
             ino.data = b""
             ino.mtime = self.kernel.time()
         ofd = OFD(ino, readable, writable, bool(flags & O_APPEND), proc, path)
-        fd = next(_FD_COUNTER)
-        proc.fds[fd] = ofd
+        # POSIX: the lowest descriptor number not in use in this process (numbers are recycled,
+        # so a stale number held by some object can come to mean another file); the numbering
+        # starts far above any real descriptor
+        fd = FD_BASE
+        fds = proc.fds
+        while fd in fds:
+            fd += 1
+        fds[fd] = ofd
         return fd, ofd
 
     def _close_fd(self, proc, fd):
@@ -519,7 +539,7 @@ class SimOS(object):
                 n = tear.get(f.name, 0)
                 if f._wbuf and n:
                     # only if the name still refers to this inode
-                    if self._lookup(f.name) is f._ofd.inode:
+                    if self._lookup(f.name) is f._ofd0.inode:
                         data = files.get(f.name, b"")
                         start = f._wstart
                         b = bytes(f._wbuf[:n])
